@@ -151,7 +151,12 @@ func VerifHarness_AttemptTriesEachOnce() {
 		backends = []string{"b0:1", "b0:1"}
 		distinct = 1
 	}
-	routes := []config.Route{{Host: []string{"*"}, Backend: backends, Strategy: strategy}}
+	host := "*"
+	if zz.Bool() {
+		host = "play.example" // an exact host: no wildcard groups to substitute into the backends
+	}
+	configured := append([]string(nil), backends...)
+	routes := []config.Route{{Host: []string{host}, Backend: backends, Strategy: strategy}}
 	client := &zzLiteClient{c: zzLiteNetConn{}}
 	_, _, route, _, next, err := findRoute(routes, logr.Discard(), client, &packet.Handshake{ServerAddress: "play.example"}, sm)
 	zz.Assert(err == nil && route != nil && next != nil, "no route found for a matching host")
@@ -171,7 +176,10 @@ func VerifHarness_AttemptTriesEachOnce() {
 		zz.Assert(v == 1, "a backend was tried more than once in one connection attempt")
 	}
 	zz.Assert(len(tried) == distinct, "the attempt gave up before every backend of the route was tried")
-	zz.Assert(len(route.Backend) == len(backends), "the attempt modified the route's configured backend list")
+	zz.Assert(len(route.Backend) == len(configured), "the attempt modified the route's configured backend list")
+	for i := range configured {
+		zz.Assert(route.Backend[i] == configured[i] && routes[0].Backend[i] == configured[i], "the attempt rewrote the route's configured backend list (the next connection sees different backends)")
+	}
 	zz.Reach("attempt")
 }
 
